@@ -32,7 +32,7 @@ ASSUMPTIONS = [
 ]
 PROBES = ["cmp:diagnostics-under-fault", "cmp:file-vs-stdin", "cmp:file-vs-scan_string", "cmp:file-vs-scan_path", "cmp:inplace-vs-fix_string", "cmp:diagnostics", "locale_C", "non_ascii_doc", "crlf_doc", "stdin_split_multibyte", "stdin_chunk_1"]
 
-EDGE = ["edge_crlf", "edge_crlf_noeol", "edge_lone_cr", "edge_mixed_eol", "edge_bom", "edge_utf8_2", "edge_utf8_3", "edge_utf8_4", "edge_utf8_noeol", "edge_nbsp", "edge_formfeed", "edge_seps_tail", "edge_u2028", "edge_fs_gs_rs", "edge_one_line", "edge_one_line_noeol", "ws_no_eol", "ws_trailing_eof", "ws_only_newlines", "ws_tabs", "ws_blank_end", "edge_long_line", "vp_and_builtin", "pr_good", "pr_bad", "fm_valid"]
+EDGE = ["edge_crlf", "edge_crlf_noeol", "edge_lone_cr", "edge_mixed_eol", "edge_bom", "edge_utf8_2", "edge_utf8_3", "edge_utf8_4", "edge_utf8_noeol", "edge_nbsp", "edge_formfeed", "edge_seps_tail", "edge_u2028", "edge_fs_gs_rs", "edge_one_line", "edge_one_line_noeol", "ws_no_eol", "ws_trailing_eof", "ws_only_newlines", "ws_tabs", "ws_blank_end", "edge_long_line", "edge_big_utf8_3", "edge_big_utf8_2", "edge_big_utf8_4", "ul_mixed", "ws_long", "vp_and_builtin", "pr_good", "pr_bad", "fm_valid"]
 
 SELECTIONS = [
     ([], []),
@@ -47,6 +47,17 @@ SELECTIONS = [
     (["--set", "extensions.front-matter.enabled=$!True"], [["set_boolean_property", "extensions.front-matter.enabled", True]]),
     (["--strict-config", "--set", "plugins.md007.indent=$#4"], [["enable_strict_configuration"], ["set_integer_property", "plugins.md007.indent", 4]]),
     (["-d", "md012", "--set", "plugins.md010.code_blocks=$!False"], [["disable_rule_by_identifier", "md012"], ["set_boolean_property", "plugins.md010.code_blocks", False]]),
+    # the same property set several times: the last one decides
+    (
+        ["--set", "plugins.md013.line_length=$#100", "--set", "plugins.md013.line_length=$#40", "--set", "plugins.md013.line_length=$#100"],
+        [["set_integer_property", "plugins.md013.line_length", 100], ["set_integer_property", "plugins.md013.line_length", 40], ["set_integer_property", "plugins.md013.line_length", 100]],
+    ),
+    (
+        ["--set", "plugins.md004.style=dash", "--set", "plugins.md004.style=asterisk", "--set", "plugins.md004.style=dash", "--set", "plugins.md009.strict=$!True"],
+        [["set_string_property", "plugins.md004.style", "dash"], ["set_string_property", "plugins.md004.style", "asterisk"], ["set_string_property", "plugins.md004.style", "dash"], ["set_boolean_property", "plugins.md009.strict", True]],
+    ),
+    (["-d", "md013,md009", "-e", "md002,md006"], [["disable_rule_by_identifier", "md013"], ["enable_rule_by_identifier", "md002"], ["disable_rule_by_identifier", "md009"], ["enable_rule_by_identifier", "md006"]]),
+    (["-e", "md013", "-d", "md013"], [["enable_rule_by_identifier", "md013"], ["disable_rule_by_identifier", "md013"]]),
 ]
 
 DIAG = [
@@ -157,13 +168,13 @@ def generate(rng, tier, index):
         label, data = name, docs[name].data
     else:
         label, data = workload.draw_docs(rng, 1, allow_concat=False)[0]
-    if len(data) > 6000:
-        data = data[:6000]
+    if len(data) > 60000:
+        data = data[:60000]
     ascii_only = all(b < 128 for b in data)
     locale = "C" if rng.random() < 0.3 else "utf8"
     selection = rng.randrange(len(SELECTIONS))
     diag = rng.randrange(len(DIAG))
-    chunk = rng.choice([1, 1, 2, 3, 5, 16, 64, 4096])
+    chunk = rng.choice([1, 1, 2, 3, 5, 16, 64, 4096, 8192, 65536])
     return {
         "cls": [rng.choice([0, 1, 2, 3, 101]), locale],
         "world": dict(workload.draw_world(rng, copy_emulation=False)),
